@@ -15,6 +15,8 @@ def gen_fst(rng, max_states=4, max_trans=6, allow_int=True, pool=None):
         states, valmode = pool[0][:ns], pool[1]
     elif allow_int and rng.chance(0.12):
         states, valmode = INT_STATES[:ns], "int"
+    elif allow_int and rng.chance(0.08):
+        states, valmode = (["0", "end", "1", "mid"])[:ns], "mixed"     # int and str names in one transducer
     else:
         states, valmode = rng.sample(STATES, ns), "str"
     inputs = INPUTS[:rng.randint(1, 2)]
@@ -47,7 +49,7 @@ def make_eps_cycles_silent(case):
 
 
 def sv(case, s):
-    if case["valmode"] == "int":
+    if case["valmode"] == "int" or (case["valmode"] == "mixed" and s.isdigit()):
         return int(s)
     if case.get("hash") and ("S:" + s) in case["hash"]:
         return VS(s, case["hash"]["S:" + s])
